@@ -21,7 +21,7 @@ fn input<'a>(commands: Vec<&'a String>) -> HandleRunInput<'a> {
 async fn vf_group_rendezvous() {
     // C16: every member of a group waits until all members have started; the group must complete for any size
     let (mut checked, mut bad) = (0u64, 0u64);
-    for n in [2usize, 12, 40] {
+    for (n, noisy) in [(2usize, false), (12, false), (40, false), (3, true)] {
         checked += 1;
         let td = crate::core::testing::new_testdir().unwrap();
         let wp = td.path();
@@ -30,17 +30,21 @@ async fn vf_group_rendezvous() {
         let mut targets = vec![];
         for i in 0..n {
             let t = format!("t{:02}", i);
+            // noisy: a member fills far more than a pipe buffer on stderr (and some stdout) BEFORE it checks in - its output must be
+            // drained concurrently, or it never reaches the rendezvous
+            let pre = if noisy { "head -c 300000 /dev/zero | tr '\\0' 'e' 1>&2\necho started\n" } else { "" };
             script(&wp.join(&t).join("monorail/cmd"), "meet.sh", &format!(
-                "touch '{m}/{t}'\nfor k in $(seq 1 160); do c=$(ls '{m}' | wc -l); if [ \"$c\" -ge {n} ]; then exit 0; fi; sleep 0.05; done\nexit 1", m = marks.display(), t = t, n = n));
+                "{pre}touch '{m}/{t}'\nfor k in $(seq 1 160); do c=$(ls '{m}' | wc -l); if [ \"$c\" -ge {n} ]; then exit 0; fi; sleep 0.05; done\nexit 1", m = marks.display(), t = t, n = n, pre = pre));
             targets.push(format!("{{\"path\":\"{}\"}}", t));
         }
         let cfg: core::Config = serde_json::from_str(&format!("{{\"targets\":[{}]}}", targets.join(","))).unwrap();
         let cmd = "meet".to_string();
-        let o = handle_run(&cfg, &input(vec![&cmd]), "x", wp).await;
+        let o = match tokio::time::timeout(std::time::Duration::from_secs(25), handle_run(&cfg, &input(vec![&cmd]), "x", wp)).await {
+            Ok(o) => o, Err(_) => Err(MonorailError::from("the run did not return within 25 s")) };
         let ok = matches!(&o, Ok(out) if !out.failed);
         if !ok {
             bad += 1;
-            println!("VF-FAIL one group of {} targets, each waiting until all {} have started :: the group did not complete (failed={:?}); members must be started without waiting for one another (C16)", n, n, o.as_ref().map(|x| x.failed).map_err(|e| e.to_string()));
+            println!("VF-FAIL one group of {} targets{}, each waiting until all {} have started :: the group did not complete (failed={:?}); members must be started without waiting for one another (C16)", n, if noisy { " (each writing 300 KB to stderr first)" } else { "" }, n, o.as_ref().map(|x| x.failed).map_err(|e| e.to_string()));
         }
     }
     println!("VF-SUMMARY test=group_rendezvous checked={} nontrivial={} bad={}", checked, checked, bad);
